@@ -64,6 +64,7 @@ class ScriptedSource(ScheduleSource):
         self._live: List[Any] = []
         self.post_fail: set = set()
         self.hook_kind = "sync"
+        self._k = 0
 
     async def add_schedule(self, schedule: ScheduledTask) -> None:
         self.added[schedule.schedule_id] = schedule
@@ -83,7 +84,10 @@ class ScriptedSource(ScheduleSource):
             co: Any = None
             if off:
                 co = dtm.timedelta(microseconds=off["td_us"]) if "td_us" in off else off["zone"]
-            return ScheduledTask(task_name="t", labels={}, args=[e["id"]], kwargs={}, cron=e["cron"], cron_offset=co, schedule_id=e["id"])
+            expr = e["cron"]
+            if e.get("repair_at") is not None and self._k >= e["repair_at"]:
+                expr = "* * * * *"       # the broken expression was repaired (same schedule id, listed anew)
+            return ScheduledTask(task_name="t", labels={}, args=[e["id"]], kwargs={}, cron=expr, cron_offset=co, schedule_id=e["id"])
         T = clock.from_us(self.base_us + e["t_off_us"])
         if e.get("naive"):
             T = T.replace(tzinfo=None)
@@ -92,6 +96,7 @@ class ScriptedSource(ScheduleSource):
     async def get_schedules(self) -> List[ScheduledTask]:
         k = self.n
         self.n += 1
+        self._k = k
         failed = k in self.fail
         listed = []
         if not failed:
